@@ -1,14 +1,14 @@
 """C05 — HEVC pass-through commands (convert, demux, remove) neither lose, alter nor reorder NAL units.
 
 Direct oracle on the real binary: synthetic streams from vlib/hevcgen.py, every output file re-split by
-the generator's independent Annex-B splitter and compared with the reference routing of vlib/cliref.py."""
+the generator's independent Annex-B splitter and compared with the reference routing of vlib/hevcref.py."""
 import json
 import os
 
 from . import common
 from . import hevcgen as H
-from . import cliref as F
-from . import clirun as R
+from . import hevcref as F
+from . import hevcrun as R
 
 HOOK = "DOVI_TOOL_VERIF_CHUNK_SIZE"
 REAL_CHUNK = 100000
@@ -200,7 +200,7 @@ def run(ctx):
                          "key": key})
 
     # ---- class 1: shapes
-    n_shape = 36 if quick else 500
+    n_shape = 240 if quick else 3000
     hooked = [64, 257, 4096]
     for i in range(n_shape):
         r = rng.fork("shape%d" % i)
@@ -215,9 +215,9 @@ def run(ctx):
                             pad=(0, r.choice([4, 40, 200])))
         if st.size() >= REAL_CHUNK - 2000:
             continue
-        add_stream("shape", st, gen_cfgs(r, 6 if quick else 8, hooked + ([None] if r.chance(1, 4) else [])))
+        add_stream("shape", st, gen_cfgs(r, 7 if quick else 8, hooked + ([None] if r.chance(1, 4) else [])))
     # ---- class 2: sizes (3 bytes .. several chunks)
-    n_size = 6 if quick else 80
+    n_size = 24 if quick else 300
     for i in range(n_size):
         r = rng.fork("size%d" % i)
         chunk = r.choice(hooked)
@@ -231,7 +231,7 @@ def run(ctx):
         add_stream("size", st, cfgs)
     # ---- class 3: start codes at every offset -4..+4 around chunk multiples
     deltas = list(range(-4, 5))
-    n_align = 2 if quick else 12
+    n_align = 6 if quick else 40
     for chunk in hooked:
         for i in range(n_align):
             r = rng.fork("align%d-%d" % (chunk, i))
@@ -263,7 +263,7 @@ def run(ctx):
             cfgs = gen_cfgs(r, 5 if quick else 8, [chunk], stdin_share=2)
             add_stream("align", st, cfgs)
     # ---- class 4: the real chunk size on streams > 250 kB, start codes around 100000 and 200000
-    n_real = 5 if quick else 30
+    n_real = 9 if quick else 60
     for i in range(n_real):
         r = rng.fork("real%d" % i)
         specs = H.gen_structure(r, 9, poc_bits=8)
@@ -325,7 +325,7 @@ def run(ctx):
                 types = [n.type for n in st.nals()]
                 if H.UNSPEC62 in types and (H.UNSPEC63 in types or j["key"] is not None):
                     ctx.nontriv("%d/%s" % (j["sid"], _cfg_name(c)))
-            if k % 37 == 0:
+            if k % 211 == 0:
                 ctx.sample("%s stream#%d (%d bytes, %d NALs, %d frames): %s -> %s" % (
                     tag, j["sid"], len(data), len(st.nals()), len(st.aus), o["cmdline"].replace(work.dir, "$W"), o.get("class")))
             if o["fail"] is not None:
